@@ -50,7 +50,14 @@ def run(out, tier, seed):
                 f.write(json.dumps({"src": spaced, "toks": p["toks"], "variant": "spaced"}, separators=(",", ":")) + "\n")
                 f.write(json.dumps({"src": " ".join(p["ptoks"]), "toks": p["toks"], "variant": "paren"}, separators=(",", ":")) + "\n")
                 f.write(json.dumps({"src": tight(p["toks"]), "toks": p["toks"], "variant": "tight", "want": [t["txt"] for t in p["toks"]]}, separators=(",", ":")) + "\n")
-                n += 3
+                # every value in its own parentheses (a space list then meets an opening bracket at every item), and the whole
+                # expression as the second sub-expression after a separator (`;` / a blank line): the tree must not change
+                if not (cfg.endswith("pairs") or cfg.endswith("all3") or n % 4 == 0):      # all of the all-operators config, a quarter of the deeper one
+                    n += 3
+                    continue
+                f.write(json.dumps({"src": " ".join(("( %s )" % t["txt"]) if t["k"] == "v" else t["txt"] for t in p["toks"]), "toks": p["toks"], "variant": "vparen"}, separators=(",", ":")) + "\n")
+                f.write(json.dumps({"src": ("7 ; " if n % 8 else "7\n\n") + spaced, "toks": p["toks"], "variant": "aftersep"}, separators=(",", ":")) + "\n")
+                n += 5
     obs_all = os.path.join(wd, "obs_all.ndjson")
     st = vlib.run_workers("parse", cases, n, obs_all, timeout=15)
     # tight spellings whose real token stream is not the intended one (e.g. `5 . 5` glued to `5.5`) are a different program: dropped
@@ -65,7 +72,7 @@ def run(out, tier, seed):
                     continue
             kept += 1
             g.write(json.dumps(o, separators=(",", ":")) + "\n")
-    decide(out, obs, kept, st, "expressions by generator config: " + ", ".join(parts) + "; each in a spaced, a tight (%d dropped: gluing changed the tokens) and a fully parenthesised spelling" % dropped)
+    decide(out, obs, kept, st, "expressions by generator config: " + ", ".join(parts) + "; each in a spaced, a tight (%d dropped: gluing changed the tokens), a fully parenthesised and a every-value-parenthesised spelling, and as second sub-expression after `;` / a blank line" % dropped)
     out.cov["exhaustive"] = True
 
 
